@@ -656,6 +656,35 @@ class ReadvMonitor(WireMonitor):
             self.readvs.append({"caller": caller, "callee": callee, "ok": not isinstance(res, Failure), "n": R.events})
 
 
+class MapupdateMonitor(object):
+    """Records what each ServermapUpdater had located at the instant it declared itself done
+    (harness-side wrapper, /repo is not touched).  Answers that reach the client after that instant are
+    ignored by the updater ("but we're not running"), so they are not part of what the read located."""
+    def __init__(self, grid):
+        from allmydata.mutable import servermap as sm
+        self.sm = sm
+        self.snaps = []
+        self.names = dict((s.serverid, s.name) for s in grid.servers)
+        self.orig = sm.ServermapUpdater._done
+        mon = self
+
+        def _done(upd):
+            if upd._running:
+                mon.snaps.append(mon.snapshot(upd))
+            return mon.orig(upd)
+        sm.ServermapUpdater._done = _done
+
+    def snapshot(self, upd):
+        shares = []
+        for (server, shnum), (verinfo, ts) in upd._servermap.get_known_shares().items():
+            shares.append((self.names.get(server.get_serverid()), shnum, verinfo[0], verinfo[1]))
+        return {"n": R.events, "mode": upd.mode, "shares": sorted(shares, key=repr),
+                "outstanding": len(upd._queries_outstanding), "extra": len(upd.extra_servers)}
+
+    def close(self):
+        self.sm.ServermapUpdater._done = self.orig
+
+
 def exec_versions(case):
     from sim.runner import child_tmp
     cfg = case["cfg"]
@@ -671,6 +700,7 @@ def exec_versions(case):
         viol.append({"clause": "%s.%s" % (prop, clause), "sig": sig or "%s.%s" % (prop, clause), "detail": detail})
 
     g = build_grid(case, base)
+    mapmon = MapupdateMonitor(g)
     try:
         mon = ReadvMonitor(g, viol)
         k, n = cfg["k"], cfg["n"]
@@ -790,6 +820,7 @@ def exec_versions(case):
             rcap = cap if capkind == "rw" else node.get_readonly_uri()
             n0 = len(mon.readvs)
             an0 = len(mon.answers)
+            sn0 = len(mapmon.snaps)
             try:
                 st, res = run(rd.create_node_from_uri(rcap).download_best_version(), 300_000)
             except EventCap:
@@ -806,6 +837,17 @@ def exec_versions(case):
                         out.append(v)
                 return out
             rec_up = recoverable_from(up_names)
+            # what the read had located: the servermap of its last map update at the instant that update finished
+            # (answers arriving later are discarded by the updater and are not "located")
+            snap = mapmon.snaps[-1] if len(mapmon.snaps) > sn0 else None
+
+            def recoverable_located(snap):
+                out = []
+                for v, shmap in intact.items():
+                    shs = set(sh for (nm, sh, seq, root) in snap["shares"] if seq == v[1] and root == v[2] and nm in shmap.get(sh, ()))
+                    if len(shs) >= k:
+                        out.append(v)
+                return out
             if st == "hung":
                 bad(focus, "read-hung", "download_best_version never completed")
                 continue
@@ -817,13 +859,17 @@ def exec_versions(case):
                     continue
                 got_v = max(match, key=lambda v: v[1])
                 if focus == "C11":
-                    rec_q = recoverable_from(queried)
+                    rec_q = recoverable_located(snap) if snap else []
                     if rec_q:
                         best = max(rec_q, key=lambda v: (v[1], v[2]))
                         if got_v[1] < best[1]:
-                            bad("C11", "not-highest-located", "read returned version seq %d although version seq %d is recoverable from the servers whose answers it received (%r); stale=%r" % (
-                                got_v[1], best[1], sorted(queried), case.get("muts")))
+                            bad("C11", "not-highest-located", "read returned version seq %d although its servermap had located k intact shares of version seq %d (on %r); stale=%r" % (
+                                got_v[1], best[1], sorted(set(nm for (nm, sh, seq, root) in snap["shares"] if seq == best[1])), case.get("muts")))
+                    if snap is None:
+                        probe("read-no-mapupdate-snapshot")
                     probe("read-newest" if got_v == newest_v else "read-older")
+                    if got_v != newest_v and newest_v in recoverable_from(queried):
+                        probe("read-older-newest-answer-arrived-after-mapupdate-done")
             else:
                 probe("read-err-" + err_name(res))
                 if newest_v in rec_up and focus == "C10":
@@ -839,21 +885,22 @@ def exec_versions(case):
                 if focus == "C11" and rec_up and not case.get("muts"):
                     bad("C11", "read-failed", "read failed with %s although a published version is recoverable from reachable servers" % err_name(res),
                         sig="C11.read-failed." + err_site(res))
-            if focus == "C11":
-                # saw (from the servers that answered) a newer version it could not recover -> must have asked everybody
-                seen_versions = set()
-                for (nm, sh), d in state.items():
-                    if nm in queried and share_version(d) is not None and share_version(d) in published:
-                        seen_versions.add(share_version(d))
-                rec_q = recoverable_from(queried)
-                best_seq = max([v[1] for v in rec_q] or [0])
-                if any(v[1] > best_seq and v not in rec_q for v in seen_versions):
+            if focus == "C11" and snap is not None:
+                # when its map update finished, the servermap held a newer version than the best one it could recover
+                # -> the updater must by then have had an answer from every reachable server
+                by_ver = {}
+                for (nm, sh, seq, root) in snap["shares"]:
+                    by_ver.setdefault((seq, root), set()).add(sh)
+                best_seq = max([seq for (seq, root), shs in by_ver.items() if len(shs) >= k] or [0])
+                if any(seq > best_seq for (seq, root) in by_ver):
                     probe("saw-unrecoverable-newer")
-                    if not up_names <= asked:
-                        bad("C11", "stopped-early", "the reader saw a newer version it could not recover but asked only %d of %d reachable servers" % (
-                            len(asked & up_names), len(up_names)))
+                    answered = set(a_["callee"] for a_ in mon.answers[an0:] if a_["caller"] == rd.sim_name and a_["n"] <= snap["n"])
+                    if not up_names <= answered:
+                        bad("C11", "stopped-early", "the map update finished with a newer version (seq %d) in its servermap than it could recover (seq %d) after answers from only %d of %d reachable servers (%d queries outstanding, %d servers never asked)" % (
+                            max(seq for (seq, root) in by_ver), best_seq, len(answered & up_names), len(up_names), snap["outstanding"], snap["extra"]))
         return finish(g, viol, probes, case, props)
     finally:
+        mapmon.close()
         g.close()
 
 
